@@ -12,6 +12,7 @@ import gens_sync
 import gens_rewards
 import gens_orders
 import gens_events
+import gens_bancor
 import vlib
 
 # model-checking configuration per family and tier: (module, cfg)
@@ -190,10 +191,16 @@ def events(tier, seed):
     return scs + regress("events")
 
 
+def bancor(tier, seed):
+    rnd = random.Random("%d/bancor" % seed)
+    return gens_bancor.bancor(rnd, {"quick": 64, "thorough": 3000}[tier])
+
+
+MC["bancor"] = None
 MC["events"] = {"quick": ("EventsStore", "mc/MCEvents_q.cfg"), "thorough": ("EventsStore", "mc/MCEvents.cfg")}
 MC["rewards"] = {"quick": ("MCRewards", "mc/MCRewards.cfg"), "thorough": ("MCRewards", "mc/MCRewards_t.cfg")}
 MC["statesync"] = {"quick": ("Durability", "mc/MCDurability_C29.cfg"), "thorough": ("Durability", "mc/MCDurability_C29_t.cfg")}
 MC["export"] = None
 MC["determinism"] = None
-BUILDERS = {"events": events, "rewards": rewards, "statesync": statesync, "export": export, "determinism": determinism,"markets": markets, "staking": staking, "ledger": ledger, "durability": durability, "crash": lambda tier, seed: crash(tier, seed) + crash_enumeration(tier, seed)}
+BUILDERS = {"bancor": bancor, "events": events, "rewards": rewards, "statesync": statesync, "export": export, "determinism": determinism,"markets": markets, "staking": staking, "ledger": ledger, "durability": durability, "crash": lambda tier, seed: crash(tier, seed) + crash_enumeration(tier, seed)}
 RANDOMISED = True
